@@ -146,6 +146,7 @@ def case_full(case):
         for k in ("verdict0", "verdict1", "verdict2"):
             if k in tr:
                 out[k] = [bool(tr[k].get(v)) for v in x]
+        out["sub_symbols"] = [s_["symbols"] for s_ in tr.get("sub_systems", [])]
         # ---- values at a random point
         rng = random.Random(case.get("pt_seed", 1))
         A, b, c = sysd["A"], sysd["b"], sysd["c"]
@@ -199,9 +200,73 @@ def case_full(case):
                            "update_expressions": {k: str(v) for k, v in s.get("update_expressions", {}).items()},
                            "propagators": {k: str(v) for k, v in s.get("propagators", {}).items()},
                            "initial_values": dict(s.get("initial_values", {})), "parameters": s.get("parameters")} for s in res]
+    if "solvers" in out and case.get("check_numeric_rhs", True):
+        try:
+            out["numeric_check"] = numeric_rhs_check(indict, marker, out["solvers"], case.get("pt_seed", 1))
+        except Exception as e:
+            out["numeric_check_error"] = type(e).__name__ + ": " + str(e)[:200]
     try:
         cl = truthcheck.classify(indict, marker=marker)
         out["truth"] = {k: cl[k] for k in ("vars", "lin", "deps", "exc1", "exc2", "eligible", "expected_analytic", "has_offset", "scc", "offset")}
     except Exception as e:
         out["truth_error"] = type(e).__name__ + ": " + str(e)[:200]
     return out
+
+
+def numeric_rhs_check(indict, marker, solvers, seed):
+    """For every variable of every numeric solver: value of the returned update expression vs value of the
+    user's right-hand side (own parsing of the input text) at random points.  Function-of-time entries: the
+    returned expressions must hold along f, f', ... as functions of t."""
+    import random
+    import sympy
+    from harness.core import numeval, refsol, truthcheck
+    ps = truthcheck.parse_system(indict, marker)
+    rng = random.Random(seed + 17)
+    t = sympy.Symbol("t")
+    fvars = {}
+    for name, f in ps["functions"].items():
+        fvars[name] = f
+    rows = []
+    for s in solvers:
+        if not s["solver"].startswith("numeric"):
+            continue
+        exprs = {v: refsol.parse(e, marker) for v, e in s["update_expressions"].items()}
+        syms = set()
+        for e in exprs.values():
+            syms |= e.free_symbols
+        for e in ps["rhs"].values():
+            syms |= e.free_symbols
+        for f in ps["functions"].values():
+            syms |= f.free_symbols
+        for trial in range(2):
+            pt = numeval.make_point(syms, rng)
+            # function-of-time state variables take the values of f and its derivatives at t
+            for name, f in ps["functions"].items():
+                k = 0
+                d = f
+                while True:
+                    sym = sympy.Symbol(name + marker * k)
+                    if sym not in syms and k > 0:
+                        break
+                    own = {sympy.Symbol(name + marker * kk) for kk in range(8)}
+                    pt[sym] = sympy.N(d.subs({q: w for q, w in pt.items() if q not in own}), 45)
+                    d = sympy.diff(d, t)
+                    k += 1
+                    if k > 6:
+                        break
+            for v, e in exprs.items():
+                got = numeval.val(e, pt)
+                base = v.replace(marker, "")
+                if v in ps["rhs"]:
+                    want = numeval.val(ps["rhs"][v], pt)
+                    kind = "ode"
+                elif base in ps["functions"]:
+                    k = v.count(marker)
+                    own = {sympy.Symbol(base + marker * kk) for kk in range(8)}
+                    want = numeval.val(sympy.diff(ps["functions"][base], t, k + 1), {q: w for q, w in pt.items() if q not in own})
+                    kind = "function"
+                else:
+                    want, kind = None, "unknown-variable"
+                rows.append({"var": v, "kind": kind, "got": None if got is None else numeval.fs(got), "want": None if want is None else numeval.fs(want),
+                             "expr": s["update_expressions"][v][:200]})
+    return rows
